@@ -136,6 +136,11 @@ func runC08(c *Ctx) {
 		c.Min("C08.5-divide-collapse-pairing", 3)
 	}
 
+	// ---- C08.3b a mutated range is always left marked dirty (else its advertised hash is stale)
+	for _, fn := range []*ssa.Function{addEl, remEl, p.Func(ld + ":(*hashRanges).updateElement")} {
+		dirtyMarkSurvives(c, "C08.3-dirty-mark-survives", fn)
+	}
+
 	// ---- C08.2 history-free hash computation
 	{
 		roots := []*ssa.Function{recalc, addEl, remEl,
